@@ -21,7 +21,7 @@ import (
 	"os"
 	"path/filepath"
 	"runtime"
-	"sort"
+	"runtime/pprof"
 	"strings"
 	"sync"
 	"sync/atomic"
@@ -132,6 +132,7 @@ type mblk struct {
 
 type violation struct {
 	Key   string   `json:"key"`
+	Sub   string   `json:"sub,omitempty"` // symptom class before root-cause classification
 	What  string   `json:"what"`
 	Trace []string `json:"trace"`
 }
@@ -146,6 +147,8 @@ type runner struct {
 	diag    string // set when, after a reopen, the store's record positions disagree with the index file
 	curEv   string
 	inAudit bool
+	alpha   []int
+	soft    []*violation // judged wrong, but the store's state is unaffected: reported, history continues
 }
 
 func (r *runner) opts() *chain.BlockDBOpts {
@@ -181,7 +184,7 @@ func (r *runner) fail(key, format string, a ...interface{}) *violation {
 		// one listed root cause: LoadBlockIndex does not advance the index position over
 		// a record flagged invalid (every later record gets a position 136 bytes too low,
 		// the append position too)
-		return &violation{Key: "reopen-index-position-not-advanced-over-invalid-record",
+		return &violation{Key: "reopen-index-position-not-advanced-over-invalid-record", Sub: key,
 			What: fmt.Sprintf("%s: %s [%s; diagnosed at reopen: %s]", where, what, key, r.diag), Trace: r.trace}
 	}
 	return &violation{Key: key, What: where + ": " + what, Trace: r.trace}
@@ -258,7 +261,8 @@ func (r *runner) length(i int) *violation {
 	}
 	if int(n) != len(b.raw) {
 		if n == 0 && m.Session {
-			return r.fail("length/zero-for-block-added-this-session", "BlockLength(%s, decode_if_needed=true) = 0 with nil error; the block has %d bytes (queued=%v)", b.name, len(b.raw), m.Queued)
+			r.soft = append(r.soft, r.fail("length/zero-for-block-added-this-session", "BlockLength(%s, decode_if_needed=true) = 0 with nil error; the block has %d bytes (queued=%v)", b.name, len(b.raw), m.Queued))
+			return nil
 		}
 		return r.fail("length/wrong", "BlockLength(%s, true) = %d, the block has %d bytes", b.name, n, len(b.raw))
 	}
@@ -428,18 +432,22 @@ func (r *runner) step(e string) *violation {
 
 func (r *runner) enabled() []string {
 	var l []string
-	for i := range blocks {
+	al := r.alpha
+	if al == nil {
+		al = []int{0, 1, 2, 3}
+	}
+	for _, i := range al {
 		l = append(l, fmt.Sprintf("add%d", i), fmt.Sprintf("add%dt", i))
 	}
-	for i := range blocks {
+	for _, i := range al {
 		l = append(l, fmt.Sprintf("get%d", i))
 	}
-	for i := range blocks {
+	for _, i := range al {
 		if r.m[i].St != absent {
 			l = append(l, fmt.Sprintf("len%d", i))
 		}
 	}
-	for i := range blocks {
+	for _, i := range al {
 		// BlockInvalid on a trusted block panics by design: not in the menu
 		if r.m[i].St == present && !r.m[i].Trusted {
 			l = append(l, fmt.Sprintf("tru%d", i), fmt.Sprintf("inv%d", i))
@@ -455,38 +463,63 @@ func (r *runner) key() string {
 	return hex.EncodeToString(h[:12])
 }
 
-// audit: every block readable now, and after one more close+reopen.
+// audit: every block readable now; after one more close+reopen; and after an
+// append following that reopen and yet another reopen ("appending continues
+// without overwriting any of them").
 func (r *runner) audit() *violation {
 	r.inAudit = true
-	for i := range blocks {
-		if v := r.get(i); v != nil {
-			return v
+	all := func() *violation {
+		for i := range blocks {
+			if v := r.get(i); v != nil {
+				return v
+			}
 		}
+		return nil
+	}
+	if v := all(); v != nil {
+		return v
 	}
 	r.trace = append(r.trace, "(audit: reopen)")
 	if v := r.reopen(); v != nil {
 		return v
 	}
+	if v := all(); v != nil {
+		return v
+	}
 	for i := range blocks {
-		if v := r.get(i); v != nil {
-			return v
+		if r.m[i].St == absent {
+			e := fmt.Sprintf("add%d", i)
+			r.trace = append(r.trace, "(audit: "+e+", reopen)")
+			cur := r.curEv
+			if v := r.step(e); v != nil {
+				return v
+			}
+			r.trace = r.trace[:len(r.trace)-1]
+			r.curEv = cur
+			if v := r.reopen(); v != nil {
+				return v
+			}
+			return all()
 		}
 	}
 	return nil
 }
 
 type result struct {
-	Ev      string     `json:"ev"`
-	Key     string     `json:"key,omitempty"`
-	Viol    *violation `json:"viol,omitempty"`
-	Enabled []string   `json:"enabled,omitempty"`
+	Ev      string       `json:"ev"`
+	Key     string       `json:"key,omitempty"`
+	Viol    *violation   `json:"viol,omitempty"`
+	Soft    []*violation `json:"soft,omitempty"`
+	Enabled []string     `json:"enabled,omitempty"`
+
+	AuditSkipped bool `json:"as,omitempty"`
 }
 
 // replay runs hist on a fresh store; a panic of the store is a violation.
-func replay(c cfg, hist []string, audit bool) (res result) {
+func replay(c cfg, alpha []int, hist []string, audit bool) (res result) {
 	dir := ev.Scratch("c16")
 	defer os.RemoveAll(dir)
-	r := &runner{c: c, dir: dir + "/blocks/"}
+	r := &runner{c: c, alpha: alpha, dir: dir + "/blocks/"}
 	defer func() {
 		if p := recover(); p != nil {
 			msg := fmt.Sprint(p)
@@ -511,6 +544,14 @@ func replay(c cfg, hist []string, audit bool) (res result) {
 	}
 	res.Key = r.key()
 	res.Enabled = r.enabled()
+	res.Soft = r.soft
+	// a state already audited (by this worker process) with a clean result needs no
+	// second audit: equal keys mean equal store state, hence equal audit outcome
+	ck := c.String() + res.Key
+	if audit && auditedOK[ck] {
+		audit = false
+		res.AuditSkipped = true
+	}
 	if audit {
 		if v := r.audit(); v != nil {
 			res.Key = ""
@@ -518,15 +559,21 @@ func replay(c cfg, hist []string, audit bool) (res result) {
 			return
 		}
 	}
+	if audit {
+		auditedOK[ck] = true
+	}
 	r.db.Close()
 	return
 }
+
+var auditedOK = map[string]bool{}
 
 // ---------------------------------------------------------------------------
 // worker protocol
 
 type job struct {
 	Cfg    cfg      `json:"cfg"`
+	Alpha  []int    `json:"alpha"` // block indices in the event menu (nil = all)
 	Hist   []string `json:"hist"`
 	Events []string `json:"events"` // nil: the state itself (hist), else one replay per hist+event
 }
@@ -542,11 +589,11 @@ func handle(line []byte) []byte {
 	}
 	var rep reply
 	if j.Events == nil {
-		r := replay(j.Cfg, j.Hist, true)
+		r := replay(j.Cfg, j.Alpha, j.Hist, true)
 		rep.Results = append(rep.Results, r)
 	}
 	for _, e := range j.Events {
-		r := replay(j.Cfg, append(append([]string(nil), j.Hist...), e), true)
+		r := replay(j.Cfg, j.Alpha, append(append([]string(nil), j.Hist...), e), true)
 		r.Ev = e
 		rep.Results = append(rep.Results, r)
 	}
@@ -562,8 +609,11 @@ type explorer struct {
 	pool   *crashfs.Pool
 	states int64
 	trans  int64
-	evCnt  sync.Map
+	evCnt  map[string]int64
 	deaths int64
+
+	auditSkipped int64
+	violCnt      map[string]int
 }
 
 // do runs a job; a worker death is attributed by re-running event by event.
@@ -596,7 +646,7 @@ func (x *explorer) do(j job) []result {
 	}
 	var out []result
 	for _, e := range j.Events {
-		out = append(out, x.do(job{Cfg: j.Cfg, Hist: j.Hist, Events: []string{e}})...)
+		out = append(out, x.do(job{Cfg: j.Cfg, Alpha: j.Alpha, Hist: j.Hist, Events: []string{e}})...)
 	}
 	return out
 }
@@ -618,7 +668,14 @@ func (x *explorer) confirm(c cfg, hist []string, v *violation) bool {
 			j = job{Cfg: c, Hist: hist[:len(hist)-1], Events: hist[len(hist)-1:]}
 		}
 		rs := x.do(j)
-		if len(rs) != 1 || rs[0].Viol == nil || rs[0].Viol.Key != v.Key {
+		if len(rs) != 1 {
+			return false
+		}
+		ok := rs[0].Viol != nil && rs[0].Viol.Key == v.Key
+		for _, sv := range rs[0].Soft {
+			ok = ok || sv.Key == v.Key
+		}
+		if !ok {
 			return false
 		}
 	}
@@ -630,67 +687,144 @@ type cfgStats struct {
 	PerDepth             []int
 }
 
-func (x *explorer) explore(c cfg, depth int, samples *ev.Samples) cfgStats {
-	var st cfgStats
-	root := x.do(job{Cfg: c, Hist: []string{}})
-	if len(root) != 1 {
-		ev.HarnessError("no root result")
+func (s *search) alphaName() string {
+	if s.alpha == nil {
+		return "b0,b1,b2,b3"
 	}
-	if root[0].Viol != nil {
-		x.report(c, nil, root[0].Viol)
-		return st
+	var l []string
+	for _, i := range s.alpha {
+		l = append(l, fmt.Sprintf("b%d", i))
 	}
-	seen := map[string]bool{root[0].Key: true}
-	type node struct {
-		hist    []string
-		enabled []string
+	return strings.Join(l, ",")
+}
+
+type node struct {
+	hist    []string
+	enabled []string
+}
+
+type search struct {
+	c        cfg
+	alpha    []int
+	depth    int
+	seen     map[string]struct{}
+	frontier []node
+	st       cfgStats
+	dead     bool
+}
+
+// exploreAll: breadth first over all configurations, depth-major (a budget cap
+// leaves every configuration complete to the same depth).
+func (x *explorer) exploreAll(ss []*search, samples *ev.Samples) []*search {
+	depth := 0
+	for _, s := range ss {
+		c := s.c
+		s.seen = map[string]struct{}{}
+		if s.depth > depth {
+			depth = s.depth
+		}
+		root := x.do(job{Cfg: c, Alpha: s.alpha, Hist: []string{}})
+		if len(root) != 1 {
+			ev.HarnessError("no root result")
+		}
+		if root[0].Viol != nil {
+			x.report(c, nil, root[0].Viol)
+			s.dead = true
+			continue
+		}
+		s.seen[root[0].Key] = struct{}{}
+		s.frontier = []node{{nil, root[0].Enabled}}
+		s.st.States = 1
+		s.st.PerDepth = []int{1}
 	}
-	frontier := []node{{nil, root[0].Enabled}}
-	st.States = 1
-	st.PerDepth = append(st.PerDepth, 1)
-	for d := 0; d < depth && len(frontier) > 0; d++ {
-		if x.run.OverBudget() {
+	type item struct{ si, fi int }
+	for d := 0; d < depth; d++ {
+		var items []item
+		for si, s := range ss {
+			if d >= s.depth {
+				s.frontier = nil
+			}
+			for fi := range s.frontier {
+				items = append(items, item{si, fi})
+			}
+		}
+		if len(items) == 0 {
 			break
 		}
-		results := make([][]result, len(frontier))
+		results := make([][]result, len(items))
 		var wg sync.WaitGroup
-		sem := make(chan struct{}, runtime.NumCPU())
-		for i := range frontier {
+		var next int64 = -1
+		var capped int32
+		for w := 0; w < runtime.NumCPU(); w++ {
 			wg.Add(1)
-			sem <- struct{}{}
-			go func(i int) {
+			go func() {
 				defer wg.Done()
-				defer func() { <-sem }()
-				results[i] = x.do(job{Cfg: c, Hist: frontier[i].hist, Events: frontier[i].enabled})
-			}(i)
+				for {
+					k := int(atomic.AddInt64(&next, 1))
+					if k >= len(items) {
+						return
+					}
+					if k%64 == 0 && x.run.OverBudget() {
+						atomic.StoreInt32(&capped, 1)
+					}
+					if atomic.LoadInt32(&capped) != 0 {
+						return
+					}
+					it := items[k]
+					n := ss[it.si].frontier[it.fi]
+					results[k] = x.do(job{Cfg: ss[it.si].c, Alpha: ss[it.si].alpha, Hist: n.hist, Events: n.enabled})
+				}
+			}()
 		}
 		wg.Wait()
-		var next []node
-		for i, rs := range results {
+		// results are folded in a fixed order (configuration, frontier position, event)
+		nexts := make([][]node, len(ss))
+		for k, rs := range results {
+			it := items[k]
+			s := ss[it.si]
 			for _, r := range rs {
-				st.Trans++
-				cnt, _ := x.evCnt.LoadOrStore(r.Ev[:3], new(int64))
-				atomic.AddInt64(cnt.(*int64), 1)
-				h := append(append([]string(nil), frontier[i].hist...), r.Ev)
+				s.st.Trans++
+				x.evCnt[r.Ev[:3]]++
+				if r.AuditSkipped {
+					x.auditSkipped++
+				}
+				h := append(append([]string(nil), s.frontier[it.fi].hist...), r.Ev)
+				for _, sv := range r.Soft {
+					x.violCnt[sv.Key]++
+					x.report(s.c, h, sv)
+				}
 				if r.Viol != nil {
-					x.report(c, h, r.Viol)
+					x.violCnt[r.Viol.Key+" <- "+r.Viol.Sub]++
+					x.report(s.c, h, r.Viol)
 					continue
 				}
-				if !seen[r.Key] {
-					seen[r.Key] = true
-					next = append(next, node{h, r.Enabled})
+				if _, ok := s.seen[r.Key]; !ok {
+					s.seen[r.Key] = struct{}{}
+					nexts[it.si] = append(nexts[it.si], node{h, r.Enabled})
 					if len(h) >= 4 {
-						samples.Add(map[string]interface{}{"cfg": c.String(), "history": h})
+						samples.Add(map[string]interface{}{"cfg": s.c.String(), "alphabet": s.alphaName(), "history": h})
 					}
 				}
 			}
 		}
-		st.States = len(seen)
-		st.Depth = d + 1
-		st.PerDepth = append(st.PerDepth, len(next))
-		frontier = next
+		if capped != 0 {
+			// the level is incomplete: counted transitions stay, the depth is not claimed
+			for _, s := range ss {
+				s.st.States = len(s.seen)
+			}
+			break
+		}
+		for si, s := range ss {
+			if d >= s.depth {
+				continue
+			}
+			s.st.States = len(s.seen)
+			s.st.Depth = d + 1
+			s.st.PerDepth = append(s.st.PerDepth, len(nexts[si]))
+			s.frontier = nexts[si]
+		}
 	}
-	return st
+	return ss
 }
 
 var reported sync.Map
@@ -727,7 +861,10 @@ func doReplay(file string) {
 		os.Exit(replaySnappy(rec.Replay.Events))
 	}
 	fmt.Fprintf(ev.Out, "replay: cfg %s, history %v\n", rec.Replay.Cfg, rec.Replay.Events)
-	r := replay(rec.Replay.Cfg, rec.Replay.Events, true)
+	r := replay(rec.Replay.Cfg, nil, rec.Replay.Events, true)
+	if r.Viol == nil && len(r.Soft) > 0 {
+		r.Viol = r.Soft[0]
+	}
 	if r.Viol == nil {
 		fmt.Fprintln(ev.Out, "replay: history passes")
 		os.Exit(0)
@@ -760,20 +897,32 @@ func main() {
 		doReplay(*replayFile)
 		return
 	}
-	depth := 6
-	r.Budget = 100 * time.Second
+	if pf := os.Getenv("C16_BENCH"); pf != "" {
+		f, _ := os.Create(pf)
+		pprof.StartCPUProfile(f)
+		t0 := time.Now()
+		for i := 0; i < 3000; i++ {
+			replay(cfg{true, 2, 3072, 1, true}, nil, []string{"add0", "add1t", "add3", "idle", "get1", "add2"}, true)
+		}
+		pprof.StopCPUProfile()
+		fmt.Fprintln(ev.Out, "bench: per replay", time.Since(t0)/3000)
+		return
+	}
+	depth, pairDepth := 4, 7
+	r.Budget = 110 * time.Second
 	if r.Thorough() {
-		depth = 8
+		depth, pairDepth = 6, 9
 		r.Budget = 17 * time.Minute
 	}
 	if d := os.Getenv("C16_DEPTH"); d != "" {
-		fmt.Sscan(d, &depth)
+		fmt.Sscan(strings.ReplaceAll(d, ",", " "), &depth, &pairDepth)
 	}
 
 	// snappy families first (both back ends)
 	sn := runSnappy(r)
 
-	x := &explorer{run: r, pool: crashfs.NewPool(runtime.NumCPU(), []string{"--worker"}, nil, 120*time.Second)}
+	x := &explorer{run: r, evCnt: map[string]int64{}, violCnt: map[string]int{},
+		pool: crashfs.NewPool(runtime.NumCPU(), []string{"--worker"}, []string{"GOGC=800", "GOMAXPROCS=1"}, 120*time.Second)}
 	samples := &ev.Samples{N: 4}
 	cfgs := allCfgs()
 	if only := os.Getenv("C16_CFG"); only != "" {
@@ -785,42 +934,60 @@ func main() {
 		}
 		cfgs = l
 	}
-	stats := make([]cfgStats, len(cfgs))
-	// configurations one after the other, each level spread over all workers, so that
-	// a budget cap leaves whole configurations at full depth rather than all of them shallow
+	// searches: (configuration, block sub-alphabet, depth bound)
+	pairs := [][]int{{0, 1}, {0, 2}, {0, 3}, {1, 2}, {1, 3}, {2, 3}}
+	var ss []*search
 	for i, c := range cfgs {
-		stats[i] = x.explore(c, depth, samples)
-	}
-	x.pool.Close()
-	per := map[string]interface{}{}
-	states, trans, minDepth := 0, 0, depth
-	for i, c := range cfgs {
-		per[c.String()] = map[string]interface{}{"states": stats[i].States, "transitions": stats[i].Trans, "depth_completed": stats[i].Depth, "new_states_per_depth": stats[i].PerDepth}
-		states += stats[i].States
-		trans += stats[i].Trans
-		if stats[i].Depth < minDepth {
-			minDepth = stats[i].Depth
+		ss = append(ss, &search{c: c, depth: depth})
+		if r.Thorough() {
+			for _, p := range pairs {
+				ss = append(ss, &search{c: c, alpha: p, depth: pairDepth})
+			}
+		} else {
+			ss = append(ss, &search{c: c, alpha: pairs[i%len(pairs)], depth: pairDepth})
 		}
 	}
-	evc := map[string]int64{}
-	x.evCnt.Range(func(k, v interface{}) bool { evc[k.(string)] = *v.(*int64); return true })
+	x.exploreAll(ss, samples)
+	x.pool.Close()
+	per := map[string]interface{}{}
+	states, trans, exhaustive := 0, 0, true
+	depthDone := map[string]int{}
+	for _, s := range ss {
+		per[s.c.String()+" alphabet="+s.alphaName()] = map[string]interface{}{"states": s.st.States, "transitions": s.st.Trans, "depth_bound": s.depth, "depth_completed": s.st.Depth, "new_states_per_depth": s.st.PerDepth}
+		states += s.st.States
+		trans += s.st.Trans
+		k := "4-blocks"
+		if s.alpha != nil {
+			k = "2-blocks"
+		}
+		if d, ok := depthDone[k]; !ok || s.st.Depth < d {
+			depthDone[k] = s.st.Depth
+		}
+		if s.st.Depth < s.depth && !s.dead {
+			exhaustive = false
+		}
+	}
+	evc := x.evCnt
 	cov := map[string]interface{}{
-		"states":                        states,
-		"transitions":                   trans,
-		"traces_validated_against_impl": trans,
-		"configurations":                len(cfgs),
-		"depth_bound":                   depth,
-		"min_depth_completed":           minDepth,
-		"per_configuration":             per,
-		"transitions_per_event_kind":    evc,
-		"worker_processes_started":      x.pool.Spawned,
-		"worker_deaths":                 x.deaths,
-		"samples":                       samples.L,
-		"snappy":                        sn,
-		"rule": "state = shortest history reaching it; each transition is a full replay of history+event on a fresh BlockDB in a fresh directory, compared with the map model at every event, followed by an audit (read all blocks, close+reopen, index walk, read all blocks); " +
+		"states":                               states,
+		"transitions":                          trans,
+		"traces_validated_against_impl":        trans,
+		"configurations":                       len(cfgs),
+		"depth_bound":                          map[string]int{"4-blocks": depth, "2-blocks": pairDepth},
+		"min_depth_completed":                  depthDone,
+		"searches":                             len(ss),
+		"per_search":                           per,
+		"violating_histories_per_key":          x.violCnt,
+		"transitions_per_event_kind":           evc,
+		"worker_processes_started":             x.pool.Spawned,
+		"worker_deaths":                        x.deaths,
+		"audits_skipped_state_already_audited": x.auditSkipped,
+		"samples":                              samples.L,
+		"snappy":                               sn,
+		"rule": "state = shortest history reaching it; each transition is a full replay of history+event on a fresh BlockDB in a fresh directory, compared with the map model at every event, followed by an audit of the reached state (read all blocks; close+reopen, index walk, read all; append one absent block, close+reopen, index walk, read all); " +
 			"state key = (model, write queue, every private bookkeeping field of BlockDB: per-record file/position/lengths/flags, LRU order of the cache, append positions)",
 	}
-	if minDepth < depth {
+	if !exhaustive {
 		cov["exhaustive"] = false
 	}
 	r.Finish(cov, []string{
@@ -832,5 +999,3 @@ func main() {
 		"BlockLength is judged with decode_if_needed=true only",
 	})
 }
-
-var _ = sort.Strings
